@@ -44,7 +44,7 @@ L = dict(
 class Variant:
     def __init__(self, name, version, layout, magic=b'VBSP', l4d2=False, sprp=(5, 60), comma=True,
                  compress=(), game_compress=(), extra_game=True, revision=7, shapes=True,
-                 lump_versions=None, game_flags=None, lzma=False, spice=None):
+                 lump_versions=None, game_flags=None, lzma=False, spice=None, empty=()):
         self.name, self.version, self.layout, self.magic, self.l4d2 = name, version, layout, magic, l4d2
         self.sprp, self.comma = sprp, comma
         self.compress = tuple(compress)             # lump ids stored LZMA-compressed
@@ -53,6 +53,7 @@ class Variant:
         self.lump_versions = dict(lump_versions or {})
         self.game_flags = dict(game_flags or {})
         self.lzma = lzma
+        self.empty = tuple(empty)   # of 'overlays', 'hdr', 'faces': lumps left empty (a reader then skips what its writer still fetches)
         self.spice = spice       # name of a post-processing step of the lumps (SPICES)
 
     @property
@@ -94,6 +95,10 @@ VARIANTS = [
     Variant('v43-vitamin-lzma', 43, 'VITAMIN', magic=b'FART', sprp=(11, 80), comma=False,
             compress=(L['BRUSHSIDES'], L['NODES']), lzma=True),
 ]
+# maps on which a reader skips a dependency that its writer still fetches (no overlays, LDR only, no faces at all)
+VARIANTS.append(Variant('v20-ldr-nooverlays', 20, 'STD', sprp=(6, 64), comma=True, empty=('overlays', 'hdr')))
+VARIANTS.append(Variant('v21-nofaces', 21, 'STD', sprp=(9, 72), comma=False, empty=('faces', 'overlays')))
+VARIANTS.append(Variant('v19-ldr', 19, 'V19', sprp=(5, 60), comma=True, empty=('hdr',), lump_versions={L['LEAFS']: 0}))
 VARIANTS.append(Variant('v25-chaos-frac', 25, 'CHAOS', sprp=(12, 80), comma=False, lump_versions={L['LEAFS']: 2},
                         spice='chaos-fractional-bounds'))
 
@@ -278,6 +283,9 @@ def build_lumps(v: Variant, rng):
         (0, 2, 2, 0, (1, 2, 3), (4, 5, 6), 5, 1, 4, 0, 1, bytes(24), 300),
     ]
     leaffaces = [0, 1, 2, 3, 0, 3]
+    if 'faces' in v.empty:
+        leaffaces = []
+        ldefs = [d[:6] + (0, 0) + d[8:] for d in ldefs]
     leafbrushes = [0, 1, 1, 2]
     leafs = []
     for (cont, clus, area, flags, mn, mx, ff, nf, fb, nb, water, amb, dist) in ldefs:
@@ -300,6 +308,8 @@ def build_lumps(v: Variant, rng):
     ndefs = [(0, 1, -1 - 1, (-64, -64, -72), (64, 64, 128), 0, 3, 0),
              (4, -1 - 2, -1 - 3, (-64, -64, -72), (64, 64, 8), 2, 2, 1),
              (3, -1 - 0, -1 - 0, (1, 2, 3), (4, 5, 6), 3, 1, 2)]
+    if 'faces' in v.empty:
+        ndefs = [d[:5] + (0, 0) + d[7:] for d in ndefs]
     nodes = []
     for (pl, neg, pos, mn, mx, ff, nf, area) in ndefs:
         if v.layout == 'CHAOS':
@@ -327,6 +337,8 @@ def build_lumps(v: Variant, rng):
     # brush models + physics
     models = [((-64.0, -64.0, -72.0), (64.0, 64.0, 128.0), (0.0, 0.0, 0.0), 0, 0, 3),
               ((1.0, 2.0, 3.0), (4.0, 5.0, 6.0), (2.5, 3.5, 4.5), 2, 3, 1)]
+    if 'faces' in v.empty:
+        models = [m[:4] + (0, 0) for m in models]
     lumps[L['MODELS']] = b''.join(struct.pack('<9fiii', *mn, *mx, *org, node, ff, nf) for mn, mx, org, node, ff, nf in models)
     phys = bytearray()
     kv0 = b'solid {\n\t"index" "0"\n\t"mass" "50.5"\n\t}\n\x00'
@@ -391,6 +403,13 @@ def build_lumps(v: Variant, rng):
         z.writestr(zipfile.ZipInfo('materials/maps/synth/c0_0_0.vmt', (2020, 1, 2, 3, 4, 6)), '"LightmappedGeneric"\n{\n}\n')
         z.writestr(zipfile.ZipInfo('scripts/x.txt', (2021, 5, 6, 7, 8, 10)), 'x' * (5 + k))
     lumps[L['PAKFILE']] = zbuf.getvalue()
+
+    if 'overlays' in v.empty:
+        lumps[L['OVERLAYS']] = lumps[L['OVERLAY_FADES']] = lumps[L['OVERLAY_SYSTEM_LEVELS']] = b''
+    if 'hdr' in v.empty:
+        lumps[L['FACES_HDR']] = b''
+    if 'faces' in v.empty:
+        lumps[L['FACES']] = lumps[L['FACES_HDR']] = lumps[L['ORIGINALFACES']] = lumps[L['FACEIDS']] = b''
 
     # lumps without a parsed view: arbitrary bytes that must survive byte for byte
     for name in ('LIGHTING', 'OCCLUSION', 'WORLDLIGHTS', 'AREAS', 'AREAPORTALS', 'DISPINFO', 'PHYSDISP', 'VERTNORMALS',
